@@ -258,6 +258,11 @@ func SortedKeys(m map[string]int) []string {
 
 // BuildReplayBinary compiles the package's test binary with harness, support and replay test.
 func (t *Target) BuildReplayBinary(bin, tmp string) error {
+	// builds may run concurrently: every build gets its own directory for the overlay files
+	tmp, err := os.MkdirTemp(tmp, "build")
+	if err != nil {
+		return err
+	}
 	ovm := t.overlayMap()
 	sup := filepath.Join(tmp, "support_"+t.PkgName+".go")
 	tst := filepath.Join(tmp, "replay_"+t.PkgName+"_test.go")
